@@ -125,6 +125,28 @@ def evaluate(case):
         if s is not None and not np.array_equal(s.view(np.uint64), a.view(np.uint64)):
             fails.append(f"{entry}: modifies an argument array")
             return fails
+    # what a call returned belongs to the caller: a later call on the same object, with other data of the same shapes, must not change it
+    if base[0] == "ok":
+        held = [None if a is None else a for a in base[1]]
+        snap_out = [None if a is None else np.array(a, copy=True) for a in held]
+        other_args = []
+        for a in _mk(case):
+            if a is None or np.isscalar(a):
+                other_args.append(a)
+            else:
+                c2 = confusable(a)
+                other_args.append(c2 if c2 is not None else a * 1.37 + 0.1)
+        # arrays that are handed through unchanged (the output abscissa) may legitimately be the caller's own object: keep grids as they are
+        for k in range(len(other_args)):
+            a0 = _mk(case)[k]
+            if a0 is not None and not np.isscalar(a0) and len(a0) > 1 and np.all(np.diff(a0) > 0):
+                other_args[k] = a0
+        impl.call(entry, other_args, kw)
+        for k, (h, s0) in enumerate(zip(held, snap_out)):
+            if h is not None and not np.array_equal(np.asarray(h, dtype=float).view(np.uint64), np.asarray(s0, dtype=float).view(np.uint64)):
+                fails.append(f"{entry}: output {k} of an earlier call changed when the same object served a later call with other data "
+                             "(the returned array is a buffer of the object)")
+                return fails
     # ... also when an uncertainty vector holds a masked (NaN) or infinite entry: the caller's arrays are the caller's
     if entry.split(".")[0] in ("Transformer", "FourierFilter", "Converter"):
         pa = _mk(case)
